@@ -74,6 +74,7 @@ func replayFile(path string) int {
 		json.Unmarshal(rec.Replay["mode"], &p.Mode)
 		json.Unmarshal(rec.Replay["strlen"], &p.StrLen)
 		json.Unmarshal(rec.Replay["files"], &p.Files)
+		json.Unmarshal(rec.Replay["reffiles"], &p.RefFiles)
 		var m gosx.Model
 		json.Unmarshal(rec.Replay["model"], &m)
 		var aid string
